@@ -11,7 +11,8 @@ Inductive dom :=
 | DOpen01         (* 0 < p < 1, quantile *)
 | DClosed01       (* 0 <= eta <= 1; p of mpls / pspline_mpls / mpspline *)
 | DGe (c : Z)     (* diff_order >= 1, poly_order >= 0, num_knots >= 2, spline_degree >= 0 *)
-| DHw.            (* half_window: a positive integer (a pair of them for the 2-D fitters) *)
+| DHw (az : bool). (* a half window: a positive (az = false) or non-negative (az = true) integer; a pair of
+                      them where the two-item form is documented (2-D fitters, snip's max_half_window) *)
 
 Definition is_nan (s : sc) : bool := match s with NaN => true | _ => false end.
 (* a float that is not an integer: its integer cast differs from it *)
@@ -25,7 +26,7 @@ Definition bad_sc (d : dom) (s : sc) : bool :=
   | DOpen01 => negb (lt_sc (zc 0) s && lt_sc s (zc 1))
   | DClosed01 => negb (le_sc (zc 0) s && le_sc s (zc 1))
   | DGe c => lt_sc s (zc c)
-  | DHw => is_nan s || le_sc s (zc 0) || noninteger s
+  | DHw az => is_nan s || zero_test az s || noninteger s
   end.
 Definition pairable (d : dom) : bool := match d with DOpen01 | DClosed01 => false | _ => true end.
 
@@ -78,8 +79,15 @@ Definition expected (e : entry) : option dom :=
   else if String.eqb p "num_knots" then Some (DGe 2)
   else if String.eqb p "spline_degree" then Some (DGe 0)
   else if String.eqb p "half_window" then
-    (if hw_module (e_module e) || String.eqb (e_method e) "pspline_mpls" then Some DHw else None)
+    (if hw_module (e_module e) || String.eqb (e_method e) "pspline_mpls" then Some (DHw false) else None)
+  else if String.eqb p "max_half_window" then (if hw_module (e_module e) then Some (DHw false) else None)
+  else if String.eqb p "min_half_window" then (if hw_module (e_module e) then Some (DHw true) else None)
   else None.
+
+(* is the two-item form of the parameter documented?  2-D fitters: (rows, columns); 1-D: only snip's
+   max_half_window (left, right).  The flag is part of the claim: every entry of a pair must be valid. *)
+Definition pair_of (e : entry) : bool :=
+  e_two_d e || (String.eqb (e_method e) "snip" && String.eqb (e_param e) "max_half_window").
 
 (* a single guard that rejects everything must_reject lists *)
 Definition covers1 (g : guard) (d : dom) (td : bool) : bool :=
@@ -90,7 +98,7 @@ Definition covers1 (g : guard) (d : dom) (td : bool) : bool :=
   | GLt c', DGe c => negb td && (c <=? c')
   | GCSV false td' DtInt, DGe c => Bool.eqb td td' && (c <=? 1)
   | GCSV true td' DtInt, DGe c => Bool.eqb td td' && (c <=? 0)
-  | GHalfWindow false td', DHw => Bool.eqb td td'
+  | GHalfWindow az' td', DHw az => Bool.eqb td td' && Bool.eqb az az'   (* both flags are pinned *)
   | _, _ => false
   end.
 (* 2-D: the pair validator followed by an element-wise `e < c'` guard (num_knots) *)
@@ -107,7 +115,7 @@ Definition entry_ok (e : entry) : bool :=
   match expected e with
   | None => true
   | Some d => let gs := before_use (e_chain e) in
-              existsb (fun g => covers1 g d (e_two_d e)) gs || covers2 gs d (e_two_d e)
+              existsb (fun g => covers1 g d (pair_of e)) gs || covers2 gs d (pair_of e)
   end.
 Definition routing_ok (t : list entry) : bool := forallb entry_ok t.
 
@@ -156,3 +164,31 @@ Definition finite_required : list (bool * string * nat) :=
 Definition finite_routing_ok (t : list centry) : bool :=
   forallb c_forwarded t
   && forallb (fun r => let '(td, fn, n) := r in Nat.leb n (count_sites td fn t)) finite_required.
+
+(* ---- every call site of _check_half_window with the flags it is called with: the documented contract of
+   each site (positive vs non-negative window, scalar vs the two-item form), pinned.  A site that gains
+   allow_zero=True, loses two_d=True, appears or disappears makes the comparison fail. *)
+Definition hwsite := (bool * string * string * string * bool * bool)%type.   (* 2-D?, module, function, argument, allow_zero, two_d *)
+Definition hwsite_eqb (a b : hwsite) : bool :=
+  let '(d1, m1, f1, x1, z1, t1) := a in
+  let '(d2, m2, f2, x2, z2, t2) := b in
+  Bool.eqb d1 d2 && String.eqb m1 m2 && String.eqb f1 f2 && String.eqb x1 x2 && Bool.eqb z1 z2 && Bool.eqb t1 t2.
+Fixpoint hwsites_eqb (a b : list hwsite) : bool :=
+  match a, b with
+  | [], [] => true
+  | x :: a', y :: b' => hwsite_eqb x y && hwsites_eqb a' b'
+  | _, _ => false
+  end.
+Definition hw_sites_expected : list hwsite :=
+  [(false, "_algorithm_setup", "_setup_morphology", "half_window", false, false);
+   (false, "_algorithm_setup", "_setup_smooth", "half_window", false, false);
+   (false, "morphological", "mpspline", "half_window", false, false);
+   (false, "smooth", "noise_median", "smooth_half_window", true, false);     (* 0 = no smoothing *)
+   (false, "smooth", "snip", "max_half_window", false, true);                (* (left, right), both >= 1 *)
+   (false, "smooth", "snip", "smooth_half_window", false, false);
+   (false, "smooth", "swima", "min_half_window", true, false);
+   (false, "smooth", "swima", "smooth_half_window", false, false);
+   (true, "_algorithm_setup", "_setup_morphology", "half_window", false, true);
+   (true, "_algorithm_setup", "_setup_smooth", "half_window", false, true);
+   (true, "morphological", "rolling_ball", "smooth_half_window", true, true)]%string.
+Definition hw_sites_ok (t : list hwsite) : bool := hwsites_eqb t hw_sites_expected.
